@@ -398,6 +398,20 @@ def foldRep (f : Sess → RuleIE → Ctx → Sess × Ctx × List Report) (ies : 
     let (s2, c2, r2) := f s1 ie c1
     (s2, c2, r1 ++ r2)) (s, c, rs)
 
+def optList (o : Option RuleIE) : List RuleIE := o.toList
+
+/-- one `for _, i := range req.X { sess.Y(i) }` loop of a handler -/
+abbrev Stage := Sess → Ctx → List Report → Sess × Ctx × List Report
+
+def liftS (f : Sess → RuleIE → Ctx → Sess × Ctx) (ies : List RuleIE) : Stage := fun s c rs =>
+  ((foldSimple f ies s c).1, (foldSimple f ies s c).2, rs)
+
+def liftR (f : Sess → RuleIE → Ctx → Sess × Ctx × List Report) (ies : List RuleIE) : Stage := fun s c rs =>
+  foldRep f ies s c rs
+
+def runStages (stages : List Stage) (s : Sess) (c : Ctx) (rs : List Report) : Sess × Ctx × List Report :=
+  stages.foldl (fun (acc : Sess × Ctx × List Report) st => st acc.1 acc.2.1 acc.2.2) (s, c, rs)
+
 /-- `Sess.Close`: remove every recorded FAR, QER, URR, BAR, PDR (map order from the environment);
     the packet queues are closed (dropped with the session). -/
 def Sess.close (s : Sess) (c : Ctx) : Sess × Ctx × List Report :=
@@ -575,7 +589,13 @@ deriving Repr, Inhabited
 def causeAccepted : Nat := Gen.ie.CauseRequestAccepted
 def causeNoContext : Nat := Gen.ie.CauseSessionContextNotFound
 
-def optList (o : Option RuleIE) : List RuleIE := o.toList
+/-- the rule loops of handleSessionEstablishmentRequest, in the handler's order -/
+def estStages (r : EstReq) : List Stage := [
+  liftS (fun s ie c => s.createSimple .far ie c) r.far,
+  liftS (fun s ie c => s.createSimple .qer ie c) r.qer,
+  liftS (fun s ie c => s.createURR ie c) r.urr,
+  liftS (fun s ie c => s.createSimple .bar ie c) (optList r.bar),
+  liftS (fun s ie c => s.createPDR ie c) r.pdr ]
 
 /-- handleSessionEstablishmentRequest -/
 def handleEst (st : State) (addr : String) (seq : BitVec 24) (r : EstReq) (_env : Env) (c : Ctx) : State × Ctx :=
@@ -590,11 +610,7 @@ def handleEst (st : State) (addr : String) (seq : BitVec 24) (r : EstReq) (_env 
       | some cp =>
         let (ln, s0) := st.lnode.newSess h cp
         let st1 := { st with lnode := ln }.modNode h fun n => { n with sess := setIns n.sess s0.localID }
-        let (s1, c1) := foldSimple (fun s ie c => s.createSimple .far ie c) r.far s0 c
-        let (s2, c2) := foldSimple (fun s ie c => s.createSimple .qer ie c) r.qer s1 c1
-        let (s3, c3) := foldSimple (fun s ie c => s.createURR ie c) r.urr s2 c2
-        let (s4, c4) := foldSimple (fun s ie c => s.createSimple .bar ie c) (optList r.bar) s3 c3
-        let (s5, c5) := foldSimple (fun s ie c => s.createPDR ie c) r.pdr s4 c4
+        let (s5, c5, _) := runStages (estStages r) s0 c []
         let created := r.pdr.filterMap fun ie => ie.ueip.map fun ip => (ie.id.getD 0, ip)
         let rsp : Msg := { kind := .estRsp, seq := seq, seid := some s5.remoteID, cause := some causeAccepted,
                            nodeID := true, fseid := some s5.localID, created := created }
@@ -607,6 +623,25 @@ def State.updateNodeID (st : State) (h : Nat) (newId : String) : State :=
   let st2 := st1.modNode h fun n => { n with id := newId }
   { st2 with rnodes := alSet st2.rnodes newId h }
 
+/-- the rule loops of handleSessionModificationRequest, in the handler's order (session.go:172-301) -/
+def modStages (r : ModReq) : List Stage := [
+  liftS (fun s ie c => s.createSimple .far ie c) r.cfar,
+  liftS (fun s ie c => s.createSimple .qer ie c) r.cqer,
+  liftS (fun s ie c => s.createURR ie c) r.curr,
+  liftS (fun s ie c => s.createSimple .bar ie c) (optList r.cbar),
+  liftS (fun s ie c => s.createPDR ie c) r.cpdr,
+  liftS (fun s ie c => s.removeSimple .far ie c) r.rfar,
+  liftS (fun s ie c => s.removeSimple .qer ie c) r.rqer,
+  liftR (fun s ie c => ((s.removeURR ie c).1, (s.removeURR ie c).2.1, ((s.removeURR ie c).2.2).getD [])) r.rurr,
+  liftS (fun s ie c => s.removeSimple .bar ie c) (optList r.rbar),
+  liftR (fun s ie c => s.removePDR ie c) r.rpdr,
+  liftS (fun s ie c => s.updateSimple .far ie c) r.ufar,
+  liftS (fun s ie c => s.updateSimple .qer ie c) r.uqer,
+  liftR (fun s ie c => s.updateURR ie c) r.uurr,
+  liftS (fun s ie c => s.updateSimple .bar ie c) (optList r.ubar),
+  liftR (fun s ie c => s.updatePDR ie c) r.updr,
+  liftR (fun s ie c => s.queryURR ie c) r.qurr ]
+
 /-- handleSessionModificationRequest -/
 def handleMod (st : State) (addr : String) (seq : BitVec 24) (r : ModReq) (env : Env) (c : Ctx) : State × Ctx :=
   match st.lnode.lookup r.seid with
@@ -616,24 +651,7 @@ def handleMod (st : State) (addr : String) (seq : BitVec 24) (r : ModReq) (env :
     let st0 := match r.nodeID with
       | some nid => st.updateNodeID s0.rnode nid
       | none => st
-    let (s1, c1) := foldSimple (fun s ie c => s.createSimple .far ie c) r.cfar s0 c
-    let (s2, c2) := foldSimple (fun s ie c => s.createSimple .qer ie c) r.cqer s1 c1
-    let (s3, c3) := foldSimple (fun s ie c => s.createURR ie c) r.curr s2 c2
-    let (s4, c4) := foldSimple (fun s ie c => s.createSimple .bar ie c) (optList r.cbar) s3 c3
-    let (s5, c5) := foldSimple (fun s ie c => s.createPDR ie c) r.cpdr s4 c4
-    let (s6, c6) := foldSimple (fun s ie c => s.removeSimple .far ie c) r.rfar s5 c5
-    let (s7, c7) := foldSimple (fun s ie c => s.removeSimple .qer ie c) r.rqer s6 c6
-    let (s8, c8, u8) := foldRep (fun s ie c =>
-        let (s', c', r) := s.removeURR ie c
-        (s', c', r.getD [])) r.rurr s7 c7 []
-    let (s9, c9) := foldSimple (fun s ie c => s.removeSimple .bar ie c) (optList r.rbar) s8 c8
-    let (s10, c10, u10) := foldRep (fun s ie c => s.removePDR ie c) r.rpdr s9 c9 u8
-    let (s11, c11) := foldSimple (fun s ie c => s.updateSimple .far ie c) r.ufar s10 c10
-    let (s12, c12) := foldSimple (fun s ie c => s.updateSimple .qer ie c) r.uqer s11 c11
-    let (s13, c13, u13) := foldRep (fun s ie c => s.updateURR ie c) r.uurr s12 c12 u10
-    let (s14, c14) := foldSimple (fun s ie c => s.updateSimple .bar ie c) (optList r.ubar) s13 c13
-    let (s15, c15, u15) := foldRep (fun s ie c => s.updatePDR ie c) r.updr s14 c14 u13
-    let (s16, c16, u16) := foldRep (fun s ie c => s.queryURR ie c) r.qurr s15 c15 u15
+    let (s16, c16, u16) := runStages (modStages r) s0 c []
     let (s17, ies) := emitUsars s16 u16 0 true
     let rsp : Msg := { kind := .modRsp, seq := seq, seid := some s17.remoteID, cause := some causeAccepted, usars := ies }
     (st0.setSess s17).sendRsp addr rsp c16
